@@ -104,6 +104,10 @@ def make_case(rng, i, tier):
         elif name == "equals":
             op["flags"] = [rng.random() < 0.3 for _ in range(4)]
         hist.append(op)
+    if i % 7 == 4:
+        # a public call that the library rejects (it raises) somewhere in the history: it must leave both views as they were
+        kinds = ["concatenate_bad_tail", "scale_fraction", "merge_bad_tail", "scale_small", "concatenate_bad_tail_two"]
+        hist.insert((i // 7) % (len(hist) + 1), {"op": "rejected", "kind": kinds[(i // 7) % len(kinds)], "s": (i // 7) % 4, "o": (i // 21) % 4})
     return {"pool": pool, "history": hist, "alias": alias}
 
 
@@ -319,6 +323,22 @@ def run(case, ctx):
                         alive.extend(cs)
                         s.concatenate(cs)
                         m.concatenate([models[j]])
+                elif name == "rejected":
+                    try:
+                        k = op["kind"]
+                        if k == "concatenate_bad_tail":
+                            s.concatenate([o.copy(), None])
+                        elif k == "concatenate_bad_tail_two":
+                            s.concatenate([o.copy(), o.copy(), 7])
+                        elif k == "merge_bad_tail":
+                            s.merge([o.copy(), None])
+                        elif k == "scale_fraction":
+                            s.scale(2.5, quantise_afterwards=False)
+                        else:
+                            s.scale(0.3, quantise_afterwards=False)
+                        LOG.n("c04.rejected_call.accepted." + k)
+                    except Exception:
+                        LOG.n("c04.rejected_call.raised." + op["kind"])
                 elif name == "scale":
                     s.scale(op["k"], quantise_afterwards=False)
                     m.scale(op["k"])
